@@ -83,6 +83,10 @@ FwLoopInv ==
      LET P == PowTab(NI, inp, NI) IN
      /\ st.q \in 1..NI /\ st.pwr = P[st.q]
      /\ \A k \in 1..NI : st.Wq[k] = IF k <= st.q THEN P[k] ELSE Zero(NI)
+(* progress without a liveness check: until done some loop action is enabled, and     *)
+(* q (bounded by FwLoopInv) strictly increases in FwLoop                              *)
+FwProgressInv ==
+  (st.m = "findwalks" /\ st.pc # "done") => ENABLED Fw
 (* refinement: the result is the table of powers (toolbox reading), hence satisfies *)
 (* the clause of the trace module; totals are the sums of the counts                *)
 FwFinalInv ==
